@@ -669,4 +669,119 @@ theorem identifyText_index_panics (t : Tax.Taxo) (fuel : Nat) (e : Nat) (bid : N
     unfold selectAllG
     rfl
 
+/-! ## `obirefidx.MakeIndexingSliceWorker` -/
+
+theorem sliceWorker_go_ok (t : Tax.Taxo) (kmers : List (Array Nat)) :
+    ∀ (seqs : List RefRec) (ids : List (Option Nat)) (cs : List (Option (Array Nat))) (ts : List Slot),
+      sliceWorkerSetup.go t kmers seqs ids = .ok (cs, ts) →
+      (∀ (i : Nat) (r : RefRec), seqs[i]? = some r →
+        ∃ j : Nat, ids[i]? = some (some j) ∧ kmers[j]? = some (Kmer.count4mer r.seq)) →
+      cs = seqs.map (fun r => some (Kmer.count4mer r.seq)) := by
+  intro seqs
+  induction seqs with
+  | nil =>
+    intro ids cs ts h _
+    unfold sliceWorkerSetup.go at h
+    injection h with h
+    injection h with h1 _
+    rw [← h1]; rfl
+  | cons r rs ih =>
+    intro ids cs ts h hal
+    obtain ⟨j, hj1, hj2⟩ := hal 0 r (by simp)
+    cases ids with
+    | nil => simp at hj1
+    | cons x js =>
+      have hx : x = some j := by simpa using hj1
+      subst hx
+      unfold sliceWorkerSetup.go at h
+      rw [hj2] at h
+      simp only at h
+      cases hg : sliceWorkerSetup.go t kmers rs js with
+      | error e => rw [hg] at h; simp at h
+      | ok p =>
+        obtain ⟨cs', ts'⟩ := p
+        rw [hg] at h
+        simp only at h
+        injection h with h
+        injection h with h1 _
+        have := ih js cs' ts' hg (fun i r' hi => hal (i + 1) r' hi)
+        rw [← h1, this]
+        rfl
+
+/-- **`kmercounts[i]` fetched through the id slot = `Count4Mer(sequences[i])`**, provided the id slot of every
+sequence of the slice points at ITS table in `*kmers` -/
+theorem sliceWorker_aligned (t : Tax.Taxo) (kmers : List (Array Nat)) (seqs : List RefRec) (ids : List (Option Nat))
+    (out : SetupOut) (h : sliceWorkerSetup t kmers seqs ids = .ok out)
+    (hal : ∀ (i : Nat) (r : RefRec), seqs[i]? = some r →
+      ∃ j : Nat, ids[i]? = some (some j) ∧ kmers[j]? = some (Kmer.count4mer r.seq)) :
+    out.refs = seqs ∧ countFn out.counts = fun i => Kmer.count4mer (refFn seqs i) := by
+  unfold sliceWorkerSetup at h
+  cases hg : sliceWorkerSetup.go t kmers seqs ids with
+  | error e => rw [hg] at h; simp at h
+  | ok p =>
+    obtain ⟨cs, ts⟩ := p
+    rw [hg] at h
+    simp only at h
+    injection h with h
+    rw [← h]
+    refine ⟨rfl, ?_⟩
+    show countFn cs = _
+    rw [sliceWorker_go_ok t kmers seqs ids cs ts hg hal, countFn_map]
+
+theorem sliceWorker_go_err (t : Tax.Taxo) (kmers : List (Array Nat)) :
+    ∀ (seqs : List RefRec) (ids : List (Option Nat)), ids.length = seqs.length →
+      (∃ i : Nat, i < seqs.length ∧ ids[i]? = some none) →
+      (∀ (k j : Nat), ids[k]? = some (some j) → j < kmers.length) →
+      sliceWorkerSetup.go t kmers seqs ids = .error .err := by
+  intro seqs
+  induction seqs with
+  | nil =>
+    intro ids _ h _
+    obtain ⟨i, hi, _⟩ := h
+    simp at hi
+  | cons r rs ih =>
+    intro ids hl hex hb
+    cases ids with
+    | nil => simp at hl
+    | cons x js =>
+      cases x with
+      | none => unfold sliceWorkerSetup.go; rfl
+      | some j =>
+        have hj : j < kmers.length := hb 0 j rfl
+        obtain ⟨i, hi, hin⟩ := hex
+        cases i with
+        | zero => simp at hin
+        | succ i =>
+          have hrec := ih js (by simpa using hl) ⟨i, by simpa using hi, by simpa using hin⟩
+            (fun k j' hk => hb (k + 1) j' (by simpa using hk))
+          unfold sliceWorkerSetup.go
+          rw [List.getElem?_eq_getElem hj]
+          simp only
+          rw [hrec]
+
+/-- a sequence of the slice without the id slot: the worker returns an error (no panic, nothing indexed) -/
+theorem sliceWorker_err (t : Tax.Taxo) (kmers : List (Array Nat)) (seqs : List RefRec) (ids : List (Option Nat))
+    (hl : ids.length = seqs.length) (hex : ∃ i : Nat, i < seqs.length ∧ ids[i]? = some none)
+    (hb : ∀ (k j : Nat), ids[k]? = some (some j) → j < kmers.length) :
+    sliceWorkerSetup t kmers seqs ids = .error .err := by
+  unfold sliceWorkerSetup
+  rw [sliceWorker_go_err t kmers seqs ids hl hex hb]
+
+/-! ## test data of `Props/C15S.lean` -/
+
+/-- (test data) taxonomy `4,5 → 2 → 1`, `3 → 1` -/
+def suT : Tax.Taxo :=
+  { ids := [1, 2, 3, 4, 5],
+    node := fun k => match k with
+      | 1 => some ⟨1, ""⟩ | 2 => some ⟨1, ""⟩ | 3 => some ⟨1, ""⟩ | 4 => some ⟨2, ""⟩ | 5 => some ⟨2, ""⟩ | _ => none,
+    alias := fun _ => none }
+/-- (test data) `acgtac`, taxon 4 -/
+def suA : RefRec := ⟨[97,99,103,116,97,99], some 4⟩
+/-- (test data) `acgtag`, taxon 3 -/
+def suC : RefRec := ⟨[97,99,103,116,97,103], some 3⟩
+/-- (test data) `acgttt`, unknown taxid 9 -/
+def suU : RefRec := ⟨[97,99,103,116,116,116], some 9⟩
+/-- (test data) `gggttt`, unknown taxid 9 -/
+def suW : RefRec := ⟨[103,103,103,116,116,116], some 9⟩
+
 end ObiVerif.Tag
